@@ -6,11 +6,12 @@ set -u
 prop=$1; src=$(readlink -f "$2"); pkg=$3; name=$4; needs=$5
 export GOFLAGS=-mod=mod GOPROXY=off GOTOOLCHAIN=local GOSUMDB=off PATH=/opt/veriftools/go1.26.8/bin:$PATH
 wt=/var/tmp/wt/confirm-$$
-git -C /repo worktree add --detach $wt 59056a1 >/dev/null 2>&1 || exit 3
+git -C /repo worktree add --detach $wt HEAD >/dev/null 2>&1 || exit 3
 cleanup() { git -C /repo worktree remove --force $wt >/dev/null 2>&1; }
 trap cleanup EXIT
 cd $wt
 demo=$(ls $src/*_test.go | head -1)
+mkdir -p /var/tmp/wt
 git apply $src/patch.diff || { echo "patch does not apply"; exit 3; }
 go build ./... >/dev/null 2>&1; build=$?
 go test -vet=off -count=1 ./$pkg/... 2>&1 | grep -E "^(--- FAIL|FAIL|ok)" | sed -E 's/[0-9]+\.[0-9]+s//g' | sort > /tmp/keepseed.with.$$
@@ -31,7 +32,7 @@ if [ $build -eq 0 ] && [ $existing -eq 0 ] && [ $withchange -ne 0 ] && [ $withou
 import json,sys
 d,prop,pkg,needs=sys.argv[1:5]
 json.dump({"property":prop,"breaks":prop,"package":pkg,"needs_to_manifest":needs,
- "origin":"independent sub-agent given only the property text and a scratch worktree of the base commit",
+ "origin":"independent sub-agent given only the property text and a scratch copy of the repository (no contract files, no history)","base":"/repo HEAD at the time of confirmation",
  "confirmed":{"compiles":True,"existing_tests_pass_with_change":True,"demo_fails_with_change":True,"demo_passes_without_change":True,
   "commands":["git apply patch.diff","go build ./...","go test -vet=off -count=1 ./%s/..."%pkg,"go test -run 'Demo|Seed' ./%s (with demo_test.go copied in)"%pkg,"git checkout -- . ; same demo run"]}},
  open(d+"/meta.json","w"),indent=1)
